@@ -95,12 +95,14 @@ C03MinRatio(nd) ==
      LET v == VaultOf(S, U(nd), p.id)
          debt == IF nd.a = "Create" THEN v.out ELSE TotalDebt(v)
      IN CRAtLeast(C, S, p, v.in, debt, p.minCr.num, p.minCr.den)
-(* step form: judged on the step that sets a vault's principal (new vault, or principal changed); like the ratio requirement it is *)
-(* demanded outside emergency shutdown (the statement's scope) - vaults re-opened below the floor by a shutdown close-out are counted   *)
-(* in STATS (esmVaultsBelowFloor) as monitored evidence, not judged                                                                        *)
+(* step form: judged on the step that sets a vault's principal (new vault, or principal changed), so that one vault left below the floor is one *)
+(* failing node. Floor and ceiling are "never" clauses of the statement: they are judged under emergency shutdown too (only the ratio requirement is *)
+(* scoped "outside emergency shutdown").                                                                                                            *)
 PrincipalSet(nd) == {v \in Range(Post(nd).vaults) : IsRoot(nd) \/ ~HasVault(Pre(nd), v.id) \/ VaultById(Pre(nd), v.id).out # v.out}
-C03Floor(nd) == ~Pre(nd).ctl.esm => \A v \in PrincipalSet(nd) : v.out >= ProdOf(Cfg(nd), v.prod).floor
-C03Ceiling(nd) == \A p \in Range(Cfg(nd).prods) : OpenMinted(Post(nd), p.id) <= p.ceiling
+C03Floor(nd) == \A v \in PrincipalSet(nd) : v.out >= ProdOf(Cfg(nd), v.prod).floor
+(* step form: a step that raises the principal outstanding across a product must leave it within the ceiling *)
+C03Ceiling(nd) == \A p \in Range(Cfg(nd).prods) :
+   IsRoot(nd) \/ OpenMinted(Post(nd), p.id) > OpenMinted(Pre(nd), p.id) => OpenMinted(Post(nd), p.id) <= p.ceiling
 C03InactivePrice(nd) ==
    nd.a \in RiskOps /\ HasProd(Cfg(nd), nd.args.p) /\ ~PricesActive(Cfg(nd), Pre(nd), ProdOf(Cfg(nd), nd.args.p)) /\ ~ProdOf(Cfg(nd), nd.args.p).stable
       => ~Ok(nd)
